@@ -104,7 +104,12 @@ class Acc:
     def case(self, key=None, outcome=None, nontrivial=True, sample=None):
         self.evaluations += 1
         if nontrivial and key is not None:
-            self.nontrivial.add(key if isinstance(key, (str, int)) else digest(key))
+            if not isinstance(key, (str, int)):
+                try:
+                    key = hash(key)  # PYTHONHASHSEED is pinned by ./check, so this is reproducible
+                except TypeError:
+                    key = digest(key)
+            self.nontrivial.add(key)
         if outcome is not None:
             self.outcomes[outcome if isinstance(outcome, str) else json.dumps(canon(outcome), sort_keys=True)] += 1
         if sample is not None and len(self.samples) < 3:
